@@ -131,7 +131,12 @@ def _validate_all(ctx, results, jvms=10):
 
     def one(ts):
         b = L.batch(ts)
-        return b, scripts, ctx.validate(b, module='LocTrace', heap='3g')
+        try:
+            return b, scripts, ctx.validate(b, module='LocTrace', heap='2g')
+        except common.Machinery as e:
+            if 'rc=-9' not in str(e) and 'rc=137' not in str(e):
+                raise
+            return b, scripts, ctx.validate(b, module='LocTrace', heap='2g')  # JVM killed from outside (memory pressure): once more
 
     with cf.ThreadPoolExecutor(max_workers=n) as ex:
         return list(ex.map(one, bins))
@@ -253,7 +258,7 @@ def run(ctx):
                       n_steps))
     res += _pool_map(_hist_shard, [(specs[k::nsh], q_hist) for k in range(nsh)])
 
-    validated = _validate_all(ctx, res, jvms=10 if quick else 14)
+    validated = _validate_all(ctx, res, jvms=10)
     _collect(ctx, validated)
     ctx.extra['snapshots_fresh'] = sum(1 for b, s, v in validated for t in b['traces'] if t['meta'].get('kind') != 'history')
     ctx.extra['snapshots_after_edit'] = sum(1 for b, s, v in validated for t in b['traces'] if t['meta'].get('kind') == 'history')
@@ -343,7 +348,7 @@ def selftest(ctx):
         if fn:
             fn(tr)
         traces.append(tr)
-    verd = ctx.validate(L.batch(traces), module='LocTrace', heap='3g')
+    verd = ctx.validate(L.batch(traces), module='LocTrace', heap='2g')
     known = {'top-returns-lowest-exact', 'decorator-region:skipped'}
     ok = True
     for i, (name, fn, clause) in enumerate(cases):
